@@ -115,6 +115,8 @@ func checkC09(c *Ctx) {
 	c09Nested(c)
 	c09Reentrant(c)
 	c09OtherPlatforms(c)
+	c09Getter(c)
+	c09AfterMalformed(c)
 	c09EndToEnd(c)
 }
 
@@ -486,6 +488,23 @@ func c09Values(c *Ctx) {
 				changed := !sameGoValue(prev, v) || cc.Same
 				if ch.IsReadable() && !sameGoValue(ch.Value, v) {
 					c.Violate("value written by a verified controller is not what the application reads", id, desc, fmt.Sprint(v), fmt.Sprintf("%T %v", ch.Value, ch.Value))
+				}
+				if b, isBool := v.(bool); isBool {
+					// HAP lets a controller write a bool as the number 1 / 0 as well (the Home app does)
+					ch.UpdateValue(!b)
+					num := "0"
+					if b {
+						num = "1"
+					}
+					nb := fmt.Sprintf(`{"characteristics":[{"aid":%d,"iid":%d,"value":%s}]}`, acc.ID, ch.ID, num)
+					st2, _, _, pm2 := f.Do(addr, "PUT", "/characteristics", "application/hap+json", []byte(nb))
+					if pm2 != "" || st2 != 204 || (ch.IsReadable() && !sameGoValue(ch.Value, v)) {
+						c.Violate("value written by a verified controller is not what the application reads", id,
+							map[string]interface{}{"constructor": e.Name, "format": ch.Format, "value_as_sent": "the JSON number " + num}, fmt.Sprint(v), fmt.Sprintf("status %d, %T %v %s", st2, ch.Value, ch.Value, pm2))
+					}
+					ch.UpdateValue(other)
+					cbVals = nil
+					f.Do(addr, "PUT", "/characteristics", "application/hap+json", []byte(body))
 				}
 				if changed && (len(cbVals) != 1 || !sameGoValue(cbVals[0], v)) {
 					c.Violate("remote-update callback did not receive the written value exactly once", id, desc, fmt.Sprint(v), fmt.Sprint(cbVals))
